@@ -26,7 +26,7 @@ EXPLANATION = (
     "hands every input edge to the kernel (no first-seen de-duplication) so that the kernel's duplicate-edge rule "
     "(minimum) matches the Python implementation's; undirected expansion mirrors both orientations; (O5) routing - "
     "the decorator forwards *args/**kwargs unchanged to either arm and falls back to Python when no adapter is "
-    "registered; (O6) Kahn's bookkeeping in the Python topological sort counts every stored edge occurrence once (the kernel does); (G3) no Python implementation keeps state between calls. NOT decided: algorithmic equivalence of the Rust kernels and the Python bodies (cross-language "
+    "registered; (O6) Kahn's bookkeeping in the Python topological sort counts every stored edge occurrence once (the kernel does); (G3) no Python implementation keeps state between calls. (O7) both PageRank loops compare the same measure of change with the tolerance. NOT decided: algorithmic equivalence of the Rust kernels and the Python bodies (cross-language "
     "semantics)."
 )
 
@@ -334,10 +334,30 @@ def run(ctx: Ctx):
     ctx.ob("C12-O5", "R18 routing", gb, "explicit 'python' never routes to rust; explicit 'rust' raises when unavailable", "if requested == 'python':\n        return 'python'" in tb and "raise ImportError" in tb, "", node=gb.node)
     ra = ctx.func("rust", "rust_adapter.decorator")
     ctx.ob("C12-O5", "R18 routing", ra, "rust_adapter registers the function under the given name and returns it unchanged", "_adapters[name] = fn" in ast.unparse(ra.node) and "return fn" in ast.unparse(ra.node), "", node=ra.node)
+    # O7 the two PageRank loops stop on the same quantity (status near the iteration limit depends on it)
+    prf = ctx.func("pagerank", "pagerank")
+    upd = [n for n in own_nodes(prf.node) if isinstance(n, (ast.Assign, ast.AugAssign)) and "abs(" in ast.unparse(n.value) and "new_scores" in ast.unparse(n.value)]
+    py_norm = "?"
+    if len(upd) == 1:
+        u = upd[0]
+        if isinstance(u, ast.AugAssign) and isinstance(u.op, ast.Add):
+            py_norm = "sum"
+        elif isinstance(u, ast.Assign) and isinstance(u.value, ast.Call) and ast.unparse(u.value.func) == "max":
+            py_norm = "max"
+    prk = rf.files.get("rust/src/algorithms/pagerank.rs", "")
+    m_ = re.search(r"let\s+diff[^;]*?\.abs\(\)\s*\)\s*\.(\w+)\(", prk, re.S)
+    rs_norm = {"sum": "sum", "fold": "max"}.get(m_.group(1), m_.group(1)) if m_ else "?"
+    ctx.ob("C12-O7", "R18 SIBLING-AGREEMENT (expression)", prf, "both PageRank loops compare the same measure of change with the tolerance", py_norm == rs_norm and py_norm != "?", f"Python: {py_norm} of |new - old|, Rust kernel: {rs_norm}: with different measures one back-end converges an iteration or more earlier and the statuses differ near max_iter", node=upd[0] if upd else prf.node)
+    tpr = ast.unparse(prf.node)
+    ctx.ob("C12-O7", "R18 SIBLING-AGREEMENT (expression)", prf, "the measure starts at zero in every iteration and is tested strictly against tol after the sweep", "max_diff = 0.0" in tpr and "if max_diff < tol:" in tpr and bool(re.search(r"if\s+diff\s*<\s*tol", prk)), "", node=prf.node)
+
     # O6 the Rust kernel counts every occurrence of an edge; so must the Python bookkeeping
     from .c14 import check_kahn
 
     check_kahn(ctx, "C12-O6")
+    from .c11 import check_floyd_edge_ingest
+
+    check_floyd_edge_ingest(ctx, "C12-O4")
     generic_sweeps(ctx)
 
 
@@ -398,6 +418,16 @@ def _v_infeasible_objective(tree):
     M.replace_expr(g, lambda e: isinstance(e, ast.Call) and M.src_has(e, "Status.INFEASIBLE"), lambda e: M.expr(ast.unparse(e).replace("float('inf')", "0")))
 
 
+def _v_fw_skip_self_loops(tree):
+    g = M.find_func(tree, "floyd_warshall")
+    M.replace_stmt(g, lambda s: isinstance(s, ast.Assign) and M.src_is(s.targets[0], "dist[u][v]") and M.src_has(s.value, "min("), lambda s: M.stmts("if u == v:\n    continue") + [s])
+
+
+def _v_pagerank_max_norm(tree):
+    g = M.find_func(tree, "pagerank")
+    M.replace_stmt(g, lambda s: isinstance(s, ast.AugAssign) and M.src_has(s.value, "abs(new_scores"), M.stmts("max_diff = max(max_diff, abs(new_scores[v] - scores[v]))"))
+
+
 def _v_adjacency_memo(tree):
     g = M.find_func(tree, "dijkstra_edges")
     M.replace_stmt(g, lambda s: isinstance(s, ast.For) and M.src_is(s.iter, "edges"), [])
@@ -446,6 +476,8 @@ VARIANTS = [
     M.Variant("dijkstra adapter reports objective 0 for unreachable target", AD, _v_infeasible_objective, "C12-O3"),
     M.Variant("dijkstra_edges memoises the adjacency lists of the last edge list in a module global (seed C12-C)", "solvor/dijkstra.py", _v_adjacency_memo, "C12-G3"),
     M.Variant("topological_sort keeps successor sets but counts every edge occurrence in the in-degree (seed C12-D)", "solvor/scc.py", _v_topo_successor_sets, "C12-O6"),
+    M.Variant("Python floyd_warshall skips self loops, the kernel does not (seed C12-E)", "solvor/floyd_warshall.py", _v_fw_skip_self_loops, "C12-O4"),
+    M.Variant("Python PageRank stops on the largest single change, the kernel on the total change (original defect)", "solvor/pagerank.py", _v_pagerank_max_norm, "C12-O7"),
     M.Variant("twin: reformat adapters", AD, _t_reformat, None),
     M.Variant("twin: reformat rust/__init__", RI, _t_reformat, None),
 ]
